@@ -349,72 +349,108 @@ Qed.
 
 (* ---------- generated tables ---------- *)
 
-Lemma tables_ok_spec : forall pass known, tables_ok pass known = true ->
-  (forall n, In n required_known -> mem n known = true) /\
-  mem "builtins.KeyError" known = false /\ mem "builtins.KeyError" pass = false /\
-  mem "malt.impl.api.StagingError" pass = true.
+Lemma negb_mem_false : forall b, negb b = true -> b = false.
+Proof. intros []; simpl; intro H; [discriminate | reflexivity]. Qed.
+
+Lemma tables_ok_spec : forall pass known keys, tables_ok pass known keys = true ->
+  (forall n, In n required_known -> mem n known = true /\ mem n keys = false) /\
+  (forall k, mem k keys = true -> mem k known = false /\ mem k pass = false) /\
+  mem "builtins.KeyError" keys = true /\
+  mem staging_name keys = false /\ mem staging_name pass = true.
 Proof.
-  intros pass known H. unfold tables_ok in H.
+  intros pass known keys H. unfold tables_ok in H.
+  apply andb_true_iff in H. destruct H as [H H6].
+  apply andb_true_iff in H. destruct H as [H H5].
   apply andb_true_iff in H. destruct H as [H H4].
   apply andb_true_iff in H. destruct H as [H H3].
   apply andb_true_iff in H. destruct H as [H1 H2].
-  rewrite forallb_forall in H1. repeat split; try assumption.
-  - destruct (mem "builtins.KeyError" known); [discriminate | reflexivity].
-  - destruct (mem "builtins.KeyError" pass); [discriminate | reflexivity].
+  rewrite forallb_forall in H1, H2, H4.
+  split; [|split; [|split; [|split]]].
+  - intros n Hn. split; [apply H1; exact Hn | apply negb_mem_false, H4; exact Hn].
+  - intros k Hk. apply mem_In in Hk. specialize (H2 k Hk). apply andb_true_iff in H2. destruct H2.
+    split; apply negb_mem_false; assumption.
+  - exact H3.
+  - apply negb_mem_false. exact H5.
+  - exact H6.
 Qed.
 
-Lemma not_key : forall pass known t, et_name t <> "builtins.KeyError"%string -> is_key (valuation_of pass known t) = false.
+Lemma not_key : forall pass known keys t, mem (et_name t) keys = false -> is_key (valuation_of pass known keys t) = false.
+Proof. intros. unfold valuation_of. simpl. assumption. Qed.
+
+Lemma known_keep_type_lemma : forall pass known keys rules,
+  rules_ok rules = true -> tables_ok pass known keys = true ->
+  forall t, In (et_name t) required_known -> create_for pass known keys rules t = Same.
 Proof.
-  intros. unfold valuation_of. simpl. destruct (String.eqb (et_name t) "builtins.KeyError") eqn:E; [|reflexivity].
-  apply String.eqb_eq in E. contradiction.
+  intros pass known keys rules Hr Ht t Hin. unfold create_for.
+  destruct (tables_ok_spec pass known keys Ht) as (Hk & _). destruct (Hk _ Hin) as [Hk1 Hk2].
+  rewrite (rules_ok_sound rules Hr) by (apply not_key; exact Hk2).
+  unfold spec_create, valuation_of. simpl. rewrite Hk1. rewrite !orb_true_r. reflexivity.
 Qed.
 
-Lemma required_not_key : forall t, In (et_name t) required_known -> et_name t <> "builtins.KeyError"%string.
+Lemma key_error_lemma : forall pass known keys rules,
+  rules_ok rules = true -> tables_ok pass known keys = true ->
+  forall t, mem (et_name t) keys = true -> et_fact t = false ->
+  create_for pass known keys rules t = MultilineKeyError.
 Proof.
-  intros t H E. rewrite E in H. simpl in H.
-  repeat (destruct H as [H|H]; [discriminate H|]). exact H.
+  intros pass known keys rules Hr Ht t Hn Hf. unfold create_for.
+  destruct (tables_ok_spec pass known keys Ht) as (_ & Hk & _). destruct (Hk _ Hn) as [Hk1 Hk2].
+  apply (rules_ok_key rules Hr); unfold valuation_of; simpl; [exact Hn|].
+  rewrite Hk1, Hk2, Hf. reflexivity.
 Qed.
 
-Lemma known_keep_type_lemma : forall pass known rules,
-  rules_ok rules = true -> tables_ok pass known = true ->
-  forall t, In (et_name t) required_known -> create_for pass known rules t = Same.
+Lemma key_never_staged_lemma : forall pass known keys rules,
+  rules_ok rules = true ->
+  forall t, mem (et_name t) keys = true -> create_for pass known keys rules t <> Staging.
 Proof.
-  intros pass known rules Hr Ht t Hin. unfold create_for.
-  rewrite (rules_ok_sound rules Hr) by (apply not_key, required_not_key; exact Hin).
-  destruct (tables_ok_spec pass known Ht) as (Hk & _).
-  unfold spec_create, valuation_of. simpl. rewrite (Hk _ Hin). rewrite !orb_true_r. reflexivity.
+  intros pass known keys rules Hr t Hn. unfold create_for.
+  apply (rules_ok_key rules Hr). unfold valuation_of. simpl. exact Hn.
 Qed.
 
-Lemma key_error_lemma : forall pass known rules,
-  rules_ok rules = true -> tables_ok pass known = true ->
-  forall t, et_name t = "builtins.KeyError"%string -> et_fact t = false ->
-  create_for pass known rules t = MultilineKeyError.
+Lemma staging_passes_lemma : forall pass known keys rules,
+  rules_ok rules = true -> tables_ok pass known keys = true ->
+  forall t, et_name t = staging_name -> create_for pass known keys rules t = Same.
 Proof.
-  intros pass known rules Hr Ht t Hn Hf. unfold create_for.
-  destruct (tables_ok_spec pass known Ht) as (_ & Hk & Hp & _).
-  apply (rules_ok_key rules Hr); unfold valuation_of; simpl; rewrite Hn; [reflexivity|].
-  rewrite Hk, Hp, Hf. reflexivity.
+  intros pass known keys rules Hr Ht t Hn. unfold create_for.
+  destruct (tables_ok_spec pass known keys Ht) as (_ & _ & _ & Hs1 & Hs2).
+  rewrite (rules_ok_sound rules Hr) by (apply not_key; rewrite Hn; exact Hs1).
+  unfold spec_create, valuation_of. simpl. rewrite Hn, Hs2. reflexivity.
 Qed.
 
-Lemma staging_passes_lemma : forall pass known rules,
-  rules_ok rules = true -> tables_ok pass known = true ->
-  forall t, et_name t = "malt.impl.api.StagingError"%string -> create_for pass known rules t = Same.
-Proof.
-  intros pass known rules Hr Ht t Hn. unfold create_for.
-  rewrite (rules_ok_sound rules Hr) by (apply not_key; rewrite Hn; discriminate).
-  destruct (tables_ok_spec pass known Ht) as (_ & _ & _ & Hs).
-  unfold spec_create, valuation_of. simpl. rewrite Hn, Hs. reflexivity.
-Qed.
-
-Lemma staged_lemma : forall pass known rules,
+Lemma staged_lemma : forall pass known keys rules,
   rules_ok rules = true ->
   forall t, mem (et_name t) pass = false -> et_fact t = false -> mem (et_name t) known = false ->
-  et_name t <> "builtins.KeyError"%string ->
-  create_for pass known rules t = Staging.
+  mem (et_name t) keys = false ->
+  create_for pass known keys rules t = Staging.
 Proof.
-  intros pass known rules Hr t Hp Hf Hk Hn. unfold create_for.
+  intros pass known keys rules Hr t Hp Hf Hk Hn. unfold create_for.
   rewrite (rules_ok_sound rules Hr) by (apply not_key; exact Hn).
-  unfold spec_create, valuation_of. simpl. rewrite Hp, Hf, Hk. simpl.
-  destruct (String.eqb (et_name t) "builtins.KeyError") eqn:E; [|reflexivity].
-  apply String.eqb_eq in E. contradiction.
+  unfold spec_create, valuation_of. simpl. rewrite Hp, Hf, Hk, Hn. reflexivity.
+Qed.
+
+(* ---------- crossing several conversion boundaries ---------- *)
+
+(* The type that arrives after one wrapper is not changed by any further wrapper, provided the
+   message-printing KeyError subclass is itself treated as a KeyError (it is one of the key types).
+   facts: the code's own plain-constructor test on the arriving type at each further wrapper;
+   the test is a function of the type, hence `same_fact`. *)
+Lemma rewrap_step : forall pass known keys rules,
+  rules_ok rules = true -> tables_ok pass known keys = true -> mem multiline_name keys = true ->
+  forall t f2,
+    let n1 := name_after t (create_for pass known keys rules t) in
+    (n1 = et_name t -> f2 = et_fact t) ->
+    (n1 = multiline_name -> f2 = false) ->
+    name_after (mkexc n1 f2 false) (create_for pass known keys rules (mkexc n1 f2 false)) = n1.
+Proof.
+  intros pass known keys rules Hr Ht Hm t f2 n1 Hsame Hmulti.
+  destruct (create_for pass known keys rules t) eqn:E; subst n1; cbn [name_after] in *.
+  - (* Same: the same type arrives again *)
+    assert (Hc : create_for pass known keys rules (mkexc (et_name t) f2 false) = Same).
+    { rewrite (Hsame eq_refl). unfold create_for in *. unfold valuation_of in *. simpl. exact E. }
+    rewrite Hc. reflexivity.
+  - (* the KeyError subclass arrives: it is a key type and fails the plain test *)
+    rewrite (key_error_lemma pass known keys rules Hr Ht (mkexc multiline_name f2 false) Hm (Hmulti eq_refl)).
+    reflexivity.
+  - (* StagingError arrives: passed through *)
+    rewrite (staging_passes_lemma pass known keys rules Hr Ht (mkexc staging_name f2 false) eq_refl).
+    reflexivity.
 Qed.
